@@ -218,31 +218,55 @@ def build_harness(binname, log, features=None, toolchain=None, nightly=False):
     return bins, None
 
 
+# A request that never returns (a non-terminating loop) must not hang the check: every chunk runs under a timeout; the
+# harness flushes each answer, so the number of answers received identifies the request, which is answered `TIMEOUT`
+# (never allowed by any spec -> reported as a violation with that request as the replay).  After the first timeout the
+# limit drops, and after a few more the remaining requests of that binary are skipped.
+TIMEOUTS = {"first": float(os.environ.get("VERIF_CHUNK_TIMEOUT", "420")), "later": 30.0, "max": 4}
+_timeouts_seen = {}
+
+
 def run_lines(exe, lines, cwd=None):
     inp = "\n".join(lines) + "\n"
-    p = subprocess.run([exe], input=inp, capture_output=True, text=True, cwd=cwd)
-    out = p.stdout.split("\n")
+    seen = _timeouts_seen.get(exe, 0)
+    is_crate = os.sep + "harness" + os.sep in exe
+    limit = None if not is_crate else (TIMEOUTS["first"] if seen == 0 else TIMEOUTS["later"])
+    try:
+        p = subprocess.run([exe], input=inp, capture_output=True, text=True, cwd=cwd, timeout=limit)
+        stdout, rc, timed_out = p.stdout, p.returncode, False
+    except subprocess.TimeoutExpired as e:
+        stdout = e.stdout or ""
+        if isinstance(stdout, bytes):
+            stdout = stdout.decode("utf-8", "replace")
+        rc, timed_out = -9, True
+        _timeouts_seen[exe] = seen + 1
+    out = stdout.split("\n")
     if out and out[-1] == "":
         out.pop()
+    elif timed_out and out:
+        out.pop()          # a partially written last answer
     if len(out) != len(lines):
-        # a hard abort (stack overflow, alloc failure): bisect to the line
-        return out + ["ABORT"] * (len(lines) - len(out)), p.returncode
-    return out, p.returncode
+        # a hard abort (stack overflow, alloc failure) or a timeout: the first unanswered request is the culprit
+        return out + ["TIMEOUT" if timed_out else "ABORT"] * (len(lines) - len(out)), rc
+    return out, rc
 
 
 def run_chunked(exe, lines, chunk=20000):
-    """Run in chunks so that an aborting case loses only its own answer."""
+    """Run in chunks so that an aborting / non-terminating case loses only its own answer."""
     res = []
     i = 0
     while i < len(lines):
+        if _timeouts_seen.get(exe, 0) > TIMEOUTS["max"]:
+            res += ["skip"] * (len(lines) - i)
+            break
         part = lines[i:i + chunk]
         out, rc = run_lines(exe, part)
-        k = len([o for o in out if o != "ABORT"])
+        k = len([o for o in out if o not in ("ABORT", "TIMEOUT")])
         if k == len(part):
             res += out
             i += len(part)
         else:
-            res += out[:k] + ["ABORT"]
+            res += out[:k] + [out[k]]
             i += k + 1
     return res
 
@@ -250,6 +274,8 @@ def run_chunked(exe, lines, chunk=20000):
 # ------------------------------------------------------------------ comparison
 
 def sp_match(r, sp):
+    if r in ("TIMEOUT", "ABORT"):
+        return False       # a request that never returns / kills the process is allowed by no property
     for alt in sp.split("|"):
         if alt == r:
             return True
